@@ -28,7 +28,7 @@ def harness_files(pkg_rel, sc):
         return afs, extra, 'ast'
     if pkg_rel == 'internal/ebnf/parser/spec':
         import lr
-        sfs, extra = lr.spec_files(sc, specK=8)
+        sfs, extra = lr.spec_files(sc, specK=8, specDirK=8, specWfK=8, specOrdK=8, specOrdK2=8)
         return sfs, extra, 'spec'
     if pkg_rel == 'internal/regex/parser/nfa':
         import c09
